@@ -32,7 +32,16 @@ pub struct Run<'a> {
     pub timeout: Duration,
 }
 
-pub fn run(r: &Run) -> std::io::Result<Out> {
+/// How the bytes of `Run::stdin` reach the child: nothing is written for `first_delay`, then `chunk` bytes at a time (0 = all at
+/// once) with `gap` between the pieces; the pipe is closed `close_delay` after the last byte. The default is immediate delivery.
+#[derive(Debug, Clone, Copy, Default)]
+pub struct Delivery { pub first_delay: Duration, /// the first `head` bytes are written on their own, followed by a pause of `head_gap`
+    pub head: usize, pub head_gap: Duration, pub chunk: usize, pub gap: Duration, pub close_delay: Duration }
+
+pub fn run(r: &Run) -> std::io::Result<Out> { run_delivery(r, &Delivery::default()) }
+
+pub fn run_delivery(r: &Run, d: &Delivery) -> std::io::Result<Out> {
+    let d = *d;
     let mut cmd = Command::new(r.program);
     cmd.args(&r.args).env_clear();
     for (k, v) in &r.env {
@@ -54,7 +63,17 @@ pub fn run(r: &Run) -> std::io::Result<Out> {
     let stdin_thread = if let Some(data) = r.stdin.clone() {
         let mut si = child.stdin.take().unwrap();
         Some(std::thread::spawn(move || {
-            let _ = si.write_all(&data);
+            if !d.first_delay.is_zero() { std::thread::sleep(d.first_delay); }
+            let head = d.head.min(data.len());
+            if head > 0 { if si.write_all(&data[..head]).is_ok() { let _ = si.flush(); } std::thread::sleep(d.head_gap); }
+            let data = &data[head..];
+            if d.chunk == 0 { let _ = si.write_all(data); } else {
+                for (i, piece) in data.chunks(d.chunk).enumerate() {
+                    if i > 0 && !d.gap.is_zero() { std::thread::sleep(d.gap); }
+                    if si.write_all(piece).is_err() || si.flush().is_err() { break; }
+                }
+            }
+            if !d.close_delay.is_zero() { std::thread::sleep(d.close_delay); }
         }))
     } else {
         None
